@@ -262,6 +262,40 @@ def check_accepted_sig(ctx, where, name, alg, ks, sig, H, case):
                  case=case, expected="valid %s signature over H" % alg, observed={"sig": sig, "H": H})
 
 
+NIST_P = {"nistp256": 2 ** 256 - 2 ** 224 + 2 ** 192 + 2 ** 96 - 1,
+          "nistp384": 2 ** 384 - 2 ** 128 - 2 ** 96 + 2 ** 32 - 1, "nistp521": 2 ** 521 - 1}
+
+
+def near_miss_keys(key):
+    """Public keys of the same type that agree with `key` in PART of their public material:
+    ECDSA: the mirrored point (same x, y -> p - y); RSA: same n other e, same e other n; Ed25519: one bit differs."""
+    import paramiko
+    f = _fields(key.asbytes())
+    out = []
+    name = key.get_name()
+    try:
+        if name == "ssh-rsa":
+            e, n = int.from_bytes(f[1], "big"), int.from_bytes(f[2], "big")
+            for e2, n2, lab in ((e + 2, n, "rsa-same-n-other-e"), (e, n + 2, "rsa-same-e-other-n"), (n, e, "rsa-e-n-swapped")):
+                blob = rfc_string(b"ssh-rsa") + rfc_mpint(e2) + rfc_mpint(n2)
+                out.append((lab, paramiko.RSAKey(data=blob)))
+        elif name.startswith("ecdsa-sha2-"):
+            pt = f[2]
+            nb = (len(pt) - 1) // 2
+            x, y = pt[1:1 + nb], int.from_bytes(pt[1 + nb:], "big")
+            p = NIST_P[name[11:]]
+            blob = rfc_string(f[0]) + rfc_string(f[1]) + rfc_string(b"\x04" + x + (p - y).to_bytes(nb, "big"))
+            out.append(("ecdsa-mirrored-same-x", paramiko.ECDSAKey(data=blob)))
+        elif name == "ssh-ed25519":
+            for pos, lab in ((0, "ed25519-first-byte"), (31, "ed25519-last-byte")):
+                b = bytearray(f[1])
+                b[pos] ^= 1
+                out.append((lab, paramiko.Ed25519Key(data=rfc_string(f[0]) + rfc_string(bytes(b)))))
+    except Exception:   # noqa: a variant the key class refuses to load is simply not available
+        pass
+    return [(lab, k) for lab, k in out if k.asbytes() != key.asbytes()]
+
+
 def rfc_kdf(hashf, K, H, X, sid, n):
     """RFC 4253 section 7.2 key derivation with an explicit session identifier."""
     kb = rfc_mpint(K)
@@ -349,7 +383,11 @@ FAULTS = ["hostkey-swap", "hostkey-other-type", "hostkey-bitflip", "pub-changed"
           # primitives and the RFC hash for the algorithm) -- the client MUST accept it
           "sig-independent",
           # the key owner signs the right H, but with ANOTHER algorithm of the same key family than the negotiated one
-          "sig-other-alg-same-key"]
+          "sig-other-alg-same-key",
+          # K_S replaced by a key of the same type sharing part of the public material (mirrored EC point, same RSA n)
+          "hostkey-near-miss",
+          # ECDSA r replaced by its negation (cannot even be DER-encoded: must be refused, not waved through)
+          "sig-negative-mpint"]
 RSA_ALGS = ("ssh-rsa", "rsa-sha2-256", "rsa-sha2-512")
 
 
@@ -366,7 +404,7 @@ def must_accept(fault):
 def fault_applies(fault, alg):
     if fault == "sig-other-alg-same-key":
         return alg in RSA_ALGS
-    return fault != "sig-mpint-pad" or alg.startswith("ecdsa-")
+    return fault not in ("sig-mpint-pad", "sig-negative-mpint") or alg.startswith("ecdsa-")
 
 
 def reencode_pub(fam, pub, rng):
@@ -495,6 +533,18 @@ def tamper(fault, fam, cls, payload, alg, keys, get_H, rng):
         sig = swapcase_first_field(sig)
     elif fault == "hostkey-name-case":
         ks = swapcase_first_field(ks)
+    elif fault == "hostkey-near-miss":
+        nm = near_miss_keys(key)
+        if nm:
+            ks = nm[rng.randrange(len(nm))][1].asbytes()
+    elif fault == "sig-negative-mpint":
+        if alg.startswith("ecdsa-"):
+            a, inner, rest = split3(sig)
+            r, s_, rest2 = split3(inner)
+            which = rng.randrange(2)
+            neg = lambda b_: rfc_mpint(-int.from_bytes(b_, "big", signed=True))   # noqa
+            sig = rfc_string(a) + rfc_string((neg(r) if which == 0 else rfc_string(r)) +
+                                             (neg(s_) if which == 1 else rfc_string(s_)) + rest2) + rest
     elif fault == "sig-other-alg-same-key":
         if alg in RSA_ALGS:
             oth = [a for a in RSA_ALGS if a != alg][rng.randrange(2)]
@@ -1118,7 +1168,7 @@ def run_loopback(ctx, keys, model_cases, latch_cases):
 
 # ----------------------------------------------------------------------------- (d) Transport.connect(hostkey=...)
 
-PIN_VARIANTS = ["same", "same-reloaded", "other-same-type", "other-type"]
+PIN_VARIANTS = ["same", "same-reloaded", "other-same-type", "other-type", "near-miss"]
 
 
 def connect_once(name, alg, keys, variant, use_pkey, rng):
@@ -1133,6 +1183,9 @@ def connect_once(name, alg, keys, variant, use_pkey, rng):
         pinned = type(key)(data=key.asbytes())
     elif variant == "other-same-type":
         pinned = other
+    elif variant == "near-miss":
+        nm = near_miss_keys(key)
+        pinned = nm[rng.randrange(len(nm))][1] if nm else other
     else:
         alt = [k for a, (k, _) in sorted(keys.items()) if k.get_name() != key.get_name()]
         pinned = alt[rng.randrange(len(alt))]
@@ -1237,11 +1290,12 @@ def run_connect(ctx, keys, pin_cases):
 
 # ----------------------------------------------------------------------------- (e) SSHClient.connect / known_hosts
 
-CLIENT_VARIANTS = ["known-same", "known-other-same-type", "known-other-type-only", "known-two-other-types", "unknown-host"]
+CLIENT_VARIANTS = ["known-same", "known-other-same-type", "known-near-miss", "known-other-type-only",
+                   "known-two-other-types", "unknown-host"]
 POLICIES = ["AutoAddPolicy", "WarningPolicy", "RejectPolicy"]
 
 
-def sshclient_once(name, alg, keys, variant, policy, system, port, rng):
+def sshclient_once(name, alg, keys, variant, policy, system, port, rng, sub=0):
     """SSHClient.connect(sock=...) towards a server holding keys[alg][0], with known_hosts prepared per variant."""
     import warnings
     import paramiko
@@ -1253,7 +1307,9 @@ def sshclient_once(name, alg, keys, variant, policy, system, port, rng):
     for k in others:
         uniq.setdefault(k.get_name(), k)
     others = [uniq[n] for n in sorted(uniq)]
-    known = {"known-same": [key], "known-other-same-type": [other],
+    nm_keys = near_miss_keys(key)
+    near = [nm_keys[sub % len(nm_keys)][1]] if nm_keys else [other]
+    known = {"known-same": [key], "known-other-same-type": [other], "known-near-miss": near,
              "known-other-type-only": [others[rng.randrange(len(others))]],
              "known-two-other-types": others[:2], "unknown-host": []}[variant]
 
@@ -1346,15 +1402,16 @@ def run_sshclient(ctx, keys):
     k = ctx.seed
     for vi, variant in enumerate(CLIENT_VARIANTS):
         for pi, policy in enumerate(POLICIES):
-            reps = len(algs) if ctx.thorough else 1
+            reps = len(algs) if (ctx.thorough or variant == "known-near-miss") else 1
             for rep in range(reps):
+                sub = rep + pi + k
                 alg = algs[(vi + 2 * pi + rep + k) % len(algs)]
                 nm = light[(vi * 3 + pi + rep + k) % len(light)]
                 system = (vi + pi + rep) % 2 == 0
                 port = 22 if (vi + rep) % 3 else 2222
                 case = {"mode": "sshclient", "kex": nm, "hostkey": alg, "variant": variant, "policy": policy,
-                        "system": system, "port": port}
-                st, o = with_watchdog(lambda: sshclient_once(nm, alg, keys, variant, policy, system, port, rng), 60)
+                        "system": system, "port": port, "sub": sub}
+                st, o = with_watchdog(lambda: sshclient_once(nm, alg, keys, variant, policy, system, port, rng, sub), 60)
                 if st != "ok":
                     ctx.notes.append("SSHClient run %r did not finish: %s %r" % (case, st, o))
                     continue
@@ -1464,7 +1521,8 @@ def replay(ctx, rep):
             ctx.count(("replay", attempt, str(case)))
             if case.get("mode") == "sshclient":
                 st, o = with_watchdog(lambda: sshclient_once(case["kex"], alg, keys, case["variant"], case["policy"],
-                                                             bool(case.get("system")), int(case.get("port") or 22), ctx.rng), 60)
+                                                             bool(case.get("system")), int(case.get("port") or 22), ctx.rng,
+                                                             int(case.get("sub") or 0)), 60)
                 if st == "ok":
                     check_sshclient(ctx, case["variant"], case["policy"], o, case)
             elif case.get("mode") == "connect":
